@@ -1,4 +1,5 @@
 import CvModel.Deps
+import CvProps.C13Lemmas
 /-!
 # C13 — the dependency engine: table obligations (regenerated from the source) and properties of enable / disable
 
@@ -41,25 +42,25 @@ def reachN (t : List FeatureDecl) : Nat → List Nat → List Nat
 def acyclic (t : List FeatureDecl) : Bool :=
   (List.range t.length).all fun f => !(reachN t t.length (succs t f)).contains f
 
-theorem tables_initialised : tables.all allInitialised = true := by sorry
+theorem tables_initialised : tables.all allInitialised = true := by decide
 
 theorem tables_in_range :
     (inRange biasFeatures colvarFeatures && inRange colvarFeatures cvcFeatures &&
-     inRange cvcFeatures agFeatures && inRange agFeatures []) = true := by sorry
+     inRange cvcFeatures agFeatures && inRange agFeatures []) = true := by decide
 
-theorem tables_excl_symmetric : tables.all exclSymmetric = true := by sorry
+theorem tables_excl_symmetric : tables.all exclSymmetric = true := by decide
 
-theorem tables_acyclic : tables.all acyclic = true := by sorry
+theorem tables_acyclic : tables.all acyclic = true := by decide
 
 /-- the first feature of every class is the dynamic "active" feature that `is_enabled()` tests -/
-theorem tables_active_first : tables.all (fun t => (t.head?.map (·.ftype)) == some 0) = true := by sorry
+theorem tables_active_first : tables.all (fun t => (t.head?.map (·.ftype)) == some 0) = true := by decide
 
 /-! ## the engine -/
 
 /-- a dry run never changes anything -/
 theorem enable_dry_pure (fuel : Nat) (F : Forest) (o f : Nat) (tl : Bool) :
     (enable fuel F o f true tl).1 = F := by
-  sorry
+  exact enable_dry_fst fuel F o f tl
 
 /-- enabling a feature that conflicts with an enabled one fails and leaves everything as it was:
     mutually exclusive capabilities are never enabled together by `enable` -/
@@ -68,45 +69,54 @@ theorem enable_excluded_fails (fuel : Nat) (F : Forest) (o f : Nat) (dry tl : Bo
     (hty : tl = true ∨ (decl (clsOf F o) f).ftype = 0)
     (hex : (decl (clsOf F o) f).excl.any (isEnabled F o) = true) :
     enable (fuel + 1) F o f dry tl = (F, false) := by
-  sorry
+  rw [enable]
+  rcases hty with h | h <;> simp [hne, hav, h, hex]
 
 /-- an unavailable feature cannot be enabled -/
 theorem enable_unavailable_fails (fuel : Nat) (F : Forest) (o f : Nat) (dry tl : Bool)
     (hne : (getF F o f).enabled = false) (hav : (getF F o f).available = false) :
     enable (fuel + 1) F o f dry tl = (F, false) := by
-  sorry
+  rw [enable]; simp [hne, hav]
 
 /-- static and user features are never switched on as a side effect of a dependency -/
 theorem enable_nondynamic_not_automatic (fuel : Nat) (F : Forest) (o f : Nat) (dry : Bool)
     (hne : (getF F o f).enabled = false) (hav : (getF F o f).available = true)
     (hty : (decl (clsOf F o) f).ftype ≠ 0) :
     enable (fuel + 1) F o f dry false = (F, false) := by
-  sorry
+  rw [enable]; simp [hne, hav, hty]
 
 /-- an already enabled feature requested by a dependant gains one reference -/
 theorem enable_counts_reference (fuel : Nat) (F : Forest) (o f : Nat) (he : (getF F o f).enabled = true) :
     enable (fuel + 1) F o f false false = (setF F o f { (getF F o f) with refCount := (getF F o f).refCount + 1 }, true) := by
-  sorry
+  rw [enable]; simp [he]
 
 /-- no capability is switched off while more than one dependant still needs it -/
 theorem disable_refuses_when_needed (fuel : Nat) (F : Forest) (o f : Nat)
     (he : (getF F o f).enabled = true) (hr : (getF F o f).refCount > 1) :
     disable (fuel + 1) F o f = (F, false) := by
-  sorry
+  rw [disable]; simp [he, hr]
 
 /-- releasing one of several references only decrements the count -/
 theorem decr_keeps_enabled (fuel : Nat) (F : Forest) (o g : Nat) (hr : (getF F o g).refCount > 1) :
     decr (fuel + 1) F o g = setF F o g { (getF F o g) with refCount := (getF F o g).refCount - 1 } := by
-  sorry
+  rw [decr]
+  have h1 : ¬ (getF F o g).refCount ≤ 0 := by omega
+  have h2 : ¬ (getF F o g).refCount - 1 = 0 := by omega
+  simp [h1, h2]
 
 /-- a static or user feature is never switched off by losing its last dependant -/
 theorem decr_nondynamic_stays (fuel : Nat) (F : Forest) (o g : Nat) (hr : (getF F o g).refCount > 0)
     (hty : (decl (clsOf F o) g).ftype ≠ 0) :
     decr (fuel + 1) F o g = setF F o g { (getF F o g) with refCount := (getF F o g).refCount - 1 } := by
-  sorry
+  rw [decr]
+  have h1 : ¬ (getF F o g).refCount ≤ 0 := by omega
+  simp [h1, hty]
 
 /-! ## non-vacuity -/
 
-example : (decl 0 5).name = "f_cvb_get_total_force" ∧ (decl 0 5).excl.contains 4 = true := by sorry
+example : (decl 0 5).name = "f_cvb_get_total_force" ∧ (decl 0 5).excl.contains 4 = true := by decide
+
+/-! ## axiom audit -/
+
 
 end Cv.C13
